@@ -94,6 +94,32 @@ type RtD struct {
 	WL   []int `json:"wl,omitempty"`
 	HasWL bool `json:"has_wl,omitempty"`
 	KM   int   `json:"km,omitempty"` // key manager runtime referred to (0 = none)
+	// WLMax[i] is the role -> max-nodes map of whitelist entity WL[i] as (role, max) pairs sorted by role.
+	WLMax [][][2]int `json:"wl_max,omitempty"`
+	// PR is the per-role policy: role -> (entity, max nodes) pairs sorted by entity; sorted by role.
+	PR []PRole `json:"per_role,omitempty"`
+	Gen  int      `json:"genesis,omitempty"` // genesis round
+	TEE  int      `json:"tee,omitempty"`     // TEE hardware
+	Deps [][3]int `json:"deps,omitempty"`    // (version, valid from, TEE constraint byte); nil = one deployment (0, 1, 0)
+}
+
+type PRole struct {
+	Role int      `json:"role"`
+	Ents [][2]int `json:"ents"`
+}
+
+func depsOf(d *RtD) [][3]int {
+	if d.Deps == nil {
+		return [][3]int{{0, 1, 0}}
+	}
+	return d.Deps
+}
+
+func wlMaxOf(d *RtD, i int) [][2]int {
+	if i < len(d.WLMax) {
+		return d.WLMax[i]
+	}
+	return nil
 }
 
 type Op struct {
@@ -203,8 +229,16 @@ func buildRuntime(d *RtD) *registry.Runtime {
 		EntityID:        pub(d.Ent),
 		Kind:            registry.RuntimeKind(d.Kind),
 		GovernanceModel: registry.RuntimeGovernanceModel(d.Gov),
-		Deployments:     []*registry.VersionInfo{{}},
+		TEEHardware:     node.TEEHardware(d.TEE),
 	}
+	for _, x := range depsOf(d) {
+		vi := &registry.VersionInfo{Version: version.FromU64(uint64(x[0])), ValidFrom: beacon.EpochTime(x[1])}
+		if x[2] != 0 {
+			vi.TEE = []byte{byte(x[2])}
+		}
+		rt.Deployments = append(rt.Deployments, vi)
+	}
+	rt.Genesis.Round = uint64(d.Gen)
 	if d.Kind == 1 {
 		rt.Executor = registry.ExecutorParameters{GroupSize: 1, RoundTimeout: 20, MaxMessages: 32}
 		rt.TxnScheduler = registry.TxnSchedulerParameters{BatchFlushTimeout: time.Second, MaxBatchSize: 1, MaxBatchSizeBytes: 1024, ProposerTimeout: 2 * time.Second}
@@ -217,11 +251,30 @@ func buildRuntime(d *RtD) *registry.Runtime {
 	}
 	if d.HasWL {
 		wl := map[signature.PublicKey]registry.EntityWhitelistConfig{}
-		for _, e := range d.WL {
-			wl[pub(e)] = registry.EntityWhitelistConfig{}
+		for i, e := range d.WL {
+			cfg := registry.EntityWhitelistConfig{}
+			for _, rm := range wlMaxOf(d, i) {
+				if cfg.MaxNodes == nil {
+					cfg.MaxNodes = map[node.RolesMask]uint16{}
+				}
+				cfg.MaxNodes[node.RolesMask(rm[0])] = uint16(rm[1])
+			}
+			wl[pub(e)] = cfg
 		}
-		rt.AdmissionPolicy = registry.RuntimeAdmissionPolicy{EntityWhitelist: &registry.EntityWhitelistRuntimeAdmissionPolicy{Entities: wl}}
-	} else {
+		rt.AdmissionPolicy.EntityWhitelist = &registry.EntityWhitelistRuntimeAdmissionPolicy{Entities: wl}
+	}
+	if len(d.PR) > 0 {
+		rt.AdmissionPolicy.PerRole = map[node.RolesMask]registry.PerRoleAdmissionPolicy{}
+		for _, pr := range d.PR {
+			ents := map[signature.PublicKey]registry.EntityWhitelistRoleConfig{}
+			for _, em := range pr.Ents {
+				ents[pub(em[0])] = registry.EntityWhitelistRoleConfig{MaxNodes: uint16(em[1])}
+			}
+			rt.AdmissionPolicy.PerRole[node.RolesMask(pr.Role)] = registry.PerRoleAdmissionPolicy{
+				EntityWhitelist: &registry.EntityWhitelistRoleAdmissionPolicy{Entities: ents}}
+		}
+	}
+	if !d.HasWL && len(d.PR) == 0 {
 		rt.AdmissionPolicy = registry.RuntimeAdmissionPolicy{AnyNode: &registry.AnyNodeRuntimeAdmissionPolicy{}}
 	}
 	if d.KM != 0 {
@@ -232,10 +285,23 @@ func buildRuntime(d *RtD) *registry.Runtime {
 	return rt
 }
 
+func sortPairs(l [][2]int) {
+	sort.Slice(l, func(i, j int) bool { return l[i][0] < l[j][0] })
+}
+
 func rtDescOf(rt *registry.Runtime) RtD {
 	d := RtD{ID: rtIdx(rt.ID), Ent: idx(rt.EntityID), Kind: int(rt.Kind), Gov: int(rt.GovernanceModel)}
 	if rt.KeyManager != nil {
 		d.KM = rtIdx(*rt.KeyManager)
+	}
+	d.Gen, d.TEE = int(rt.Genesis.Round), int(rt.TEEHardware)
+	d.Deps = [][3]int{}
+	for _, vi := range rt.Deployments {
+		t := 0
+		if len(vi.TEE) > 0 {
+			t = int(vi.TEE[0])
+		}
+		d.Deps = append(d.Deps, [3]int{int(vi.Version.ToU64()), int(vi.ValidFrom), t})
 	}
 	if wl := rt.AdmissionPolicy.EntityWhitelist; wl != nil {
 		d.HasWL = true
@@ -244,7 +310,26 @@ func rtDescOf(rt *registry.Runtime) RtD {
 			d.WL = append(d.WL, idx(e))
 		}
 		sort.Ints(d.WL)
+		for _, e := range d.WL {
+			mx := [][2]int{}
+			for role, m := range wl.Entities[pub(e)].MaxNodes {
+				mx = append(mx, [2]int{int(role), int(m)})
+			}
+			sortPairs(mx)
+			d.WLMax = append(d.WLMax, mx)
+		}
 	}
+	for role, pr := range rt.AdmissionPolicy.PerRole {
+		x := PRole{Role: int(role), Ents: [][2]int{}}
+		if pr.EntityWhitelist != nil {
+			for e, c := range pr.EntityWhitelist.Entities {
+				x.Ents = append(x.Ents, [2]int{idx(e), int(c.MaxNodes)})
+			}
+		}
+		sortPairs(x.Ents)
+		d.PR = append(d.PR, x)
+	}
+	sort.Slice(d.PR, func(i, j int) bool { return d.PR[i].Role < d.PR[j].Role })
 	return d
 }
 
@@ -282,7 +367,7 @@ func newWorld() *world {
 		},
 	}))
 	must(w.state.SetConsensusParameters(w.ctx, &registry.ConsensusParameters{
-		MaxNodeExpiration: maxExp, DebugAllowTestRuntimes: true, DebugDeployImmediately: true, MaxRuntimeDeployments: 20,
+		MaxNodeExpiration: maxExp, DebugAllowTestRuntimes: true, MaxRuntimeDeployments: 3,
 		EnableRuntimeGovernanceModels: map[registry.RuntimeGovernanceModel]bool{registry.GovernanceEntity: true, registry.GovernanceRuntime: true},
 	}))
 	must(beaconState.NewMutableState(w.ctx.State()).SetConsensusParameters(w.ctx, &beacon.ConsensusParameters{Backend: beacon.BackendInsecure}))
@@ -421,6 +506,8 @@ func errCode(err error) string {
 		return "CNodeCannotBeUnfrozen"
 	case errors.Is(err, registry.ErrNoSuchNode):
 		return "CNoSuchNode"
+	case errors.Is(err, registry.ErrNoEnclaveForRuntime):
+		return "CNoEnclave"
 	case errors.Is(err, registry.ErrForbidden):
 		return "CForbidden"
 	case errors.Is(err, registry.ErrRuntimeUpdateNotAllowed):
@@ -429,6 +516,9 @@ func errCode(err error) string {
 		return "CNoSuchRuntime"
 	case errors.Is(err, registry.ErrInvalidArgument):
 		return "CInvalidArgument"
+	}
+	if os.Getenv("C17_DEBUG") != "" {
+		fmt.Fprintln(os.Stderr, "COther:", err)
 	}
 	return "COther"
 }
@@ -739,12 +829,7 @@ func (d *dump) coq() string {
 		if d.RtSusp[r] {
 			st = 2
 		}
-		row := []int{r, st, rt.Ent, rt.Kind, rt.Gov, rt.KM}
-		if rt.HasWL {
-			row = append(append(row, 1), rt.WL...)
-		} else {
-			row = append(row, 0)
-		}
+		row := rtRow(r, st, rt)
 		rows = append(rows, ints(row))
 	}
 	for r := 1; r <= nRts; r++ {
@@ -756,6 +841,69 @@ func (d *dump) coq() string {
 	}
 	rows = append(rows, ints(st))
 	return "[" + strings.Join(rows, "; ") + "]"
+}
+
+// rtRow renders a runtime record in the layout of Verif.Registry.Model.runtime_row.
+func rtRow(r, st int, rt *RtD) []int {
+	row := []int{r, st, rt.Ent, rt.Kind, rt.Gov, rt.KM, rt.Gen, rt.TEE}
+	for _, x := range depsOf(rt) {
+		row = append(row, x[0], x[1], x[2])
+	}
+	row = append(row, 7777)
+	if rt.HasWL {
+		row = append(row, 1)
+		for i, e := range rt.WL {
+			mx := wlMaxOf(rt, i)
+			row = append(row, e, len(mx))
+			for _, rm := range mx {
+				row = append(row, rm[0], rm[1])
+			}
+		}
+	} else {
+		row = append(row, 0)
+	}
+	row = append(row, 7777)
+	for _, pr := range rt.PR {
+		row = append(row, pr.Role, len(pr.Ents))
+		for _, em := range pr.Ents {
+			row = append(row, em[0], em[1])
+		}
+	}
+	return row
+}
+
+func pairs(l [][2]int) string {
+	var x []string
+	for _, p := range l {
+		x = append(x, fmt.Sprintf("(%d, %d)", p[0], p[1]))
+	}
+	return "[" + strings.Join(x, "; ") + "]"
+}
+
+// coqRt renders a runtime descriptor as a Verif.Registry.Model.runtime term.
+func coqRt(d *RtD) string {
+	wl := "None"
+	if d.HasWL {
+		var x []string
+		for i, e := range d.WL {
+			x = append(x, fmt.Sprintf("(%d, %s)", e, pairs(wlMaxOf(d, i))))
+		}
+		wl = "(Some [" + strings.Join(x, "; ") + "])"
+	}
+	km := "None"
+	if d.KM != 0 {
+		km = fmt.Sprintf("(Some %d)", d.KM)
+	}
+	var pr []string
+	for _, p := range d.PR {
+		pr = append(pr, fmt.Sprintf("(%d, %s)", p.Role, pairs(p.Ents)))
+	}
+	var deps []string
+	for _, x := range depsOf(d) {
+		deps = append(deps, fmt.Sprintf("mkDep %d %d %d", x[0], x[1], x[2]))
+	}
+	return fmt.Sprintf("(mkRt %d %d %d %d %s %s [%s] %d %d [%s])", d.ID, d.Ent, d.Kind, d.Gov, wl, km,
+		strings.Join(pr, "; "), d.Gen, d.TEE, strings.Join(deps, "; "))
 }
 
 func (d *dump) node(id int) *NodeD {
@@ -984,6 +1132,54 @@ func authorityCheck(o Op, code string, before, after *dump) string {
 			if rt.HasWL && !contains(rt.WL, a.Ent) {
 				return fmt.Sprintf("node %d of entity %d admitted to runtime %d whose whitelist is %v", id, a.Ent, r, rt.WL)
 			}
+			// per-role limits in force at the time of the registration: the entity's
+			// non-expired nodes with that role for that runtime, the new one included
+			for _, role := range []int{1, 2, 4, 8, 32} {
+				if a.Roles&role == 0 {
+					continue
+				}
+				limit := -1 // no limit
+				if rt.HasWL {
+					for i, e := range rt.WL {
+						if e == a.Ent && len(wlMaxOf(rt, i)) > 0 {
+							limit = 0 // a role missing from a non-empty map is not admitted
+							for _, rm := range wlMaxOf(rt, i) {
+								if rm[0] == role {
+									limit = rm[1]
+								}
+							}
+						}
+					}
+				}
+				for _, pr := range rt.PR {
+					if pr.Role != role {
+						continue
+					}
+					found := false
+					for _, em := range pr.Ents {
+						if em[0] == a.Ent {
+							found = true
+							if em[1] > 0 && (limit < 0 || em[1] < limit) {
+								limit = em[1]
+							}
+						}
+					}
+					if !found {
+						return fmt.Sprintf("node %d of entity %d with role %d admitted to runtime %d whose per-role policy does not list the entity", id, a.Ent, role, r)
+					}
+				}
+				if limit >= 0 {
+					cnt := 0
+					for _, m := range after.Nodes {
+						if m.Ent == a.Ent && m.Exp >= before.Epoch && contains(m.Rts, r) && m.Roles&role != 0 {
+							cnt++
+						}
+					}
+					if cnt > limit {
+						return fmt.Sprintf("entity %d now has %d non-expired nodes with role %d in runtime %d, limit %d", a.Ent, cnt, role, r, limit)
+					}
+				}
+			}
 		}
 		if b != nil && b.Exp >= before.Epoch {
 			for _, r := range b.Rts {
@@ -1056,6 +1252,66 @@ func authorityCheck(o Op, code string, before, after *dump) string {
 		}
 		if b != nil && (b.Kind != a.Kind || (b.Gov != a.Gov && !(b.Gov == 1 && a.Gov == 2))) {
 			return fmt.Sprintf("runtime %d changed its kind or made a forbidden governance transition", r)
+		}
+		{
+			// the stored descriptor's deployments are well formed at the time of the registration
+			deps := append([][3]int{}, depsOf(a)...)
+			sort.SliceStable(deps, func(i, j int) bool { return deps[i][0] < deps[j][0] })
+			future := 0
+			for i, x := range deps {
+				if i > 0 && (deps[i-1][0] == x[0] || deps[i-1][1] >= x[1]) {
+					return fmt.Sprintf("runtime %d accepted with deployments %v: versions / validity windows do not increase together", r, deps)
+				}
+				if uint64(x[1]) > before.Epoch {
+					future++
+				}
+				if x[2] != 0 && a.TEE == 0 {
+					return fmt.Sprintf("runtime %d accepted with TEE constraints but no TEE hardware", r)
+				}
+			}
+			if len(deps) == 0 || len(deps) > 3 || future > 1 {
+				return fmt.Sprintf("runtime %d accepted with %d deployments, %d of them in the future (epoch %d)", r, len(deps), future, before.Epoch)
+			}
+		}
+		if b != nil && b.Gen != a.Gen {
+			return fmt.Sprintf("runtime %d changed its genesis %d -> %d", r, b.Gen, a.Gen)
+		}
+		if b != nil {
+			// deployments that already started must stay exactly as they are; nothing may start retroactively
+			started := func(d *RtD) string {
+				var l [][3]int
+				for _, x := range depsOf(d) {
+					if uint64(x[1]) <= before.Epoch {
+						l = append(l, x)
+					}
+				}
+				sort.Slice(l, func(i, j int) bool { return l[i][0] < l[j][0] })
+				return fmt.Sprint(l)
+			}
+			act := func(d *RtD) string {
+				best := [3]int{-1, -1, -1}
+				for _, x := range depsOf(d) {
+					if uint64(x[1]) <= before.Epoch && x[1] > best[1] {
+						best = x
+					}
+				}
+				return fmt.Sprint(best)
+			}
+			if act(b) != act(a) {
+				return fmt.Sprintf("runtime %d changed its active deployment %s -> %s at epoch %d", r, act(b), act(a), before.Epoch)
+			}
+			for _, x := range depsOf(a) {
+				if uint64(x[1]) <= before.Epoch && !strings.Contains(started(b), fmt.Sprint(x)) {
+					return fmt.Sprintf("runtime %d got deployment %v which starts in the past (epoch %d)", r, x, before.Epoch)
+				}
+			}
+		}
+		if b == nil {
+			for _, x := range depsOf(a) {
+				if uint64(x[1]) <= before.Epoch {
+					return fmt.Sprintf("new runtime %d deployed immediately: %v at epoch %d", r, x, before.Epoch)
+				}
+			}
 		}
 		if b != nil && b.KM != 0 && a.KM != b.KM {
 			return fmt.Sprintf("runtime %d changed or dropped its key manager reference %d -> %d", r, b.KM, a.KM)
@@ -1160,15 +1416,7 @@ func coqOp(o Op) string {
 	case "epoch":
 		return fmt.Sprintf("TEpoch %d", o.Epoch)
 	case "regrt":
-		wl := "None"
-		if o.Runtime.HasWL {
-			wl = "(Some " + ints(o.Runtime.WL) + ")"
-		}
-		km := "None"
-		if o.Runtime.KM != 0 {
-			km = fmt.Sprintf("(Some %d)", o.Runtime.KM)
-		}
-		return fmt.Sprintf("TRegRuntime %d (mkRt %d %d %d %d %s %s)", o.Caller, o.Runtime.ID, o.Runtime.Ent, o.Runtime.Kind, o.Runtime.Gov, wl, km)
+		return fmt.Sprintf("TRegRuntime %d %s", o.Caller, coqRt(o.Runtime))
 	case "suspendrt":
 		return fmt.Sprintf("LSuspendRt %d", o.Rt)
 	case "unfreeze":
@@ -1236,6 +1484,30 @@ func runCase(c Case) (res runResult) {
 		res.stats["code:"+o.K+"/"+code]++
 		if o.Moved != "" {
 			res.stats["reregistration:"+o.Moved+"/"+code]++
+		}
+		if o.K == "regrt" {
+			kind := "new"
+			if b := before.Rts[o.Runtime.ID]; b != nil {
+				kind = "update_same_deployments"
+				if fmt.Sprint(depsOf(b)) != fmt.Sprint(depsOf(o.Runtime)) {
+					kind = "update_deployments"
+				}
+				if fmt.Sprint(b.WL, b.WLMax, b.PR) != fmt.Sprint(o.Runtime.WL, o.Runtime.WLMax, o.Runtime.PR) {
+					kind += "+policy"
+				}
+			}
+			res.stats["runtime_op:"+kind+"/"+code]++
+		}
+		if o.K == "regnode" && code == "COk" && len(o.Node.Rts) > 0 {
+			limited := false
+			for _, r := range o.Node.Rts {
+				if rt := before.Rts[r]; rt != nil && (len(rt.PR) > 0 || fmt.Sprint(rt.WLMax) != fmt.Sprint([][][2]int(nil)) && strings.Contains(fmt.Sprint(rt.WLMax), " ")) {
+					limited = true
+				}
+			}
+			if limited {
+				res.stats["misc:node_admitted_under_per_role_limits"]++
+			}
 		}
 		if (o.K == "regnode" || o.K == "lsetnode") && code == "COk" {
 			uk := updateKind(old, o.Node)
@@ -1407,14 +1679,103 @@ func genTx(r *prng.R) Case {
 		return -1
 	}
 	randWL := func(d *RtD) {
-		d.HasWL, d.WL = false, nil
-		if r.Chance(35) {
+		d.HasWL, d.WL, d.WLMax, d.PR = false, nil, nil, nil
+		if r.Chance(40) {
 			d.HasWL = true
 			d.WL = []int{}
 			for e := 1; e <= nEnts; e++ {
-				if r.Chance(65) {
+				if r.Chance(70) {
 					d.WL = append(d.WL, e)
+					mx := [][2]int{}
+					if r.Chance(55) { // per-role limits for this entity
+						for _, role := range []int{1, 2, 4} {
+							if r.Chance(75) {
+								mx = append(mx, [2]int{role, pick(r, []int{1, 1, 1, 2, 2, 0})})
+							}
+						}
+						if r.Chance(3) {
+							mx = append(mx, [2]int{pick(r, []int{3, 16}), 1}) // not a single role: invalid policy
+						}
+					}
+					d.WLMax = append(d.WLMax, mx)
 				}
+			}
+		}
+		if r.Chance(18) {
+			for _, role := range []int{1, 4} {
+				if r.Chance(60) {
+					pr := PRole{Role: role, Ents: [][2]int{}}
+					for e := 1; e <= nEnts; e++ {
+						if r.Chance(75) {
+							pr.Ents = append(pr.Ents, [2]int{e, pick(r, []int{0, 1, 1, 2})})
+						}
+					}
+					d.PR = append(d.PR, pr)
+				}
+			}
+		}
+	}
+	// deployments of a new runtime: normally one version starting in the future
+	newDeps := func(d *RtD) {
+		e := int(sh.epoch)
+		v := r.Intn(3)
+		d.Deps = [][3]int{{v, e + r.Range(1, 3), 0}}
+		switch x := r.Intn(160); {
+		case x < 8: // immediate deployment
+			d.Deps[0][1] = e - r.Intn(2)
+			if d.Deps[0][1] < 0 {
+				d.Deps[0][1] = 0
+			}
+		case x < 12: // two future deployments
+			d.Deps = append(d.Deps, [3]int{v + 1, d.Deps[0][1] + 1, 0})
+		case x < 15: // duplicate version
+			d.Deps = append(d.Deps, [3]int{v, d.Deps[0][1] + 1, 0})
+		case x < 18: // TEE constraints without TEE hardware
+			d.Deps[0][2] = 7
+		case x < 21:
+			d.TEE = pick(r, []int{1, 2, 3})
+		case x < 23:
+			d.Deps = [][3]int{}
+		}
+	}
+	// deployments of an update
+	updDeps := func(d *RtD, cur *RtD) {
+		e := int(sh.epoch)
+		d.Deps = append([][3]int{}, depsOf(cur)...)
+		maxV, maxF := 0, 0
+		for _, x := range d.Deps {
+			if x[0] > maxV {
+				maxV = x[0]
+			}
+			if x[1] > maxF {
+				maxF = x[1]
+			}
+		}
+		nf := maxF + 1
+		if nf <= e {
+			nf = e + 1
+		}
+		switch x := r.Intn(100); {
+		case x < 30: // schedule the next version
+			d.Deps = append(d.Deps, [3]int{maxV + 1, nf + r.Intn(2), 0})
+		case x < 38: // retroactive deployment
+			d.Deps = append(d.Deps, [3]int{maxV + 1, max(e-r.Intn(2), 0), 0})
+		case x < 46: // move a deployment
+			i := r.Intn(len(d.Deps))
+			d.Deps[i][1] += pick(r, []int{-1, 1, 2})
+			if d.Deps[i][1] < 0 {
+				d.Deps[i][1] = 0
+			}
+		case x < 54: // drop a deployment
+			i := r.Intn(len(d.Deps))
+			d.Deps = append(d.Deps[:i:i], d.Deps[i+1:]...)
+		case x < 58: // lower version later in time
+			d.Deps = append(d.Deps, [3]int{maxV + 1, nf, 0}, [3]int{maxV + 2, nf + 1, 0})
+		case x < 61:
+			d.Deps = append(d.Deps, [3]int{maxV + 1, nf, 0}, [3]int{maxV + 2, nf + 1, 0}, [3]int{maxV + 3, nf + 2, 0})
+		case x < 64: // reorder only
+			for i, j := 0, len(d.Deps)-1; i < j; i, j = i+1, j-1 {
+				d.Deps[i], d.Deps[j] = d.Deps[j], d.Deps[i]
 			}
 		}
 	}
@@ -1422,12 +1783,13 @@ func genTx(r *prng.R) Case {
 		var d RtD
 		caller := 0
 		cur := shRts[id]
+		clean := cur == nil && r.Chance(70) // a well-formed first registration
 		if cur == nil {
 			d = RtD{ID: id, Ent: r.Range(1, nEnts), Kind: 1, Gov: 1}
 			if id >= 3 {
 				d.Kind = 2
 			}
-			if r.Chance(6) {
+			if !clean && r.Chance(6) {
 				d.Kind = 3 - d.Kind
 			}
 			switch x := r.Intn(100); {
@@ -1439,13 +1801,43 @@ func genTx(r *prng.R) Case {
 				d.Gov = pick(r, []int{0, 4})
 			}
 			randWL(&d)
+			newDeps(&d)
+			d.Gen = r.Intn(3)
 			if d.Kind == 1 && r.Chance(25) {
-				d.KM = pick(r, []int{3, 3, 4, 4, 1, 5, id})
+				d.KM = pick(r, []int{3, 3, 3, 4, 4, 4, 4, 3, 1, 5, id})
+			}
+			if clean {
+				if d.Gov != 1 && !(d.Gov == 2 && d.Kind == 1) {
+					d.Gov = 1
+				}
+				d.TEE, d.Deps = 0, [][3]int{{r.Intn(2), int(sh.epoch) + r.Range(1, 2), 0}}
+				if d.KM != 0 && (d.KM < 3 || d.KM > 4 || shRts[d.KM] == nil) {
+					d.KM = 0
+				}
+				for i := range d.WLMax {
+					var mx [][2]int
+					for _, rm := range d.WLMax[i] {
+						if rm[0] == 1 || rm[0] == 2 || rm[0] == 4 {
+							mx = append(mx, rm)
+						}
+					}
+					d.WLMax[i] = mx
+					if mx == nil {
+						d.WLMax[i] = [][2]int{}
+					}
+				}
 			}
 			caller = acctOf(&d)
 		} else {
 			d = *cur
 			d.WL = append([]int{}, cur.WL...)
+			d.Deps = append([][3]int{}, depsOf(cur)...)
+			if r.Chance(45) {
+				updDeps(&d, cur)
+			}
+			if r.Chance(5) {
+				d.Gen = cur.Gen + 1
+			}
 			switch x := r.Intn(100); {
 			case x < 25:
 				d.Ent = 1 + (cur.Ent-1+r.Range(1, nEnts-1))%nEnts
@@ -1465,6 +1857,7 @@ func genTx(r *prng.R) Case {
 			caller = acctOf(cur)
 		}
 		switch x := r.Intn(100); {
+		case clean:
 		case x < 6:
 			caller = 2 * r.Range(1, poolSize)
 		case x < 10:
@@ -1475,7 +1868,23 @@ func genTx(r *prng.R) Case {
 		if caller < 0 {
 			caller = 2 * d.Ent
 		}
-		ok := (d.Kind == 1 && id < 3 || d.Kind == 2 && id >= 3) && (d.Gov == 1 || d.Gov == 2 && d.Kind == 1) &&
+		depsOK := len(depsOf(&d)) >= 1 && len(depsOf(&d)) <= 3 && d.TEE == 0
+		for _, x := range depsOf(&d) {
+			depsOK = depsOK && x[2] == 0
+			if cur == nil {
+				depsOK = depsOK && uint64(x[1]) > sh.epoch
+			}
+		}
+		if cur != nil && fmt.Sprint(depsOf(cur)) != fmt.Sprint(depsOf(&d)) {
+			depsOK = false // keep the shadow simple: only unchanged deployments are assumed accepted
+			if len(depsOf(&d)) == len(depsOf(cur))+1 && fmt.Sprint(depsOf(&d)[:len(depsOf(cur))]) == fmt.Sprint(depsOf(cur)) {
+				last := depsOf(&d)[len(depsOf(cur))]
+				prev := depsOf(cur)[len(depsOf(cur))-1]
+				depsOK = uint64(last[1]) > sh.epoch && uint64(prev[1]) <= sh.epoch && last[0] > prev[0] && last[1] > prev[1] && len(depsOf(&d)) <= 3
+			}
+		}
+		ok := depsOK && (cur == nil || cur.Gen == d.Gen) &&
+			(d.Kind == 1 && id < 3 || d.Kind == 2 && id >= 3) && (d.Gov == 1 || d.Gov == 2 && d.Kind == 1) &&
 			(d.KM == 0 || d.Kind == 1 && d.KM >= 3 && shRts[d.KM] != nil) && (cur == nil || cur.KM == 0 || cur.KM == d.KM)
 		if cur != nil {
 			ok = ok && cur.Kind == d.Kind && (cur.Gov == d.Gov || cur.Gov == 1 && d.Gov == 2) && caller == acctOf(cur)
@@ -1534,7 +1943,7 @@ func genTx(r *prng.R) Case {
 		}
 		return pick(r, nodeIDs)
 	}
-	n := r.Range(6, 28)
+	n := r.Range(12, 44)
 	for len(c.Ops) < n {
 		x := r.Intn(100)
 		switch {
@@ -1555,6 +1964,16 @@ func genTx(r *prng.R) Case {
 			}
 		case x < 25:
 			c.Ops = append(c.Ops, regRt(r.Range(1, nRts)))
+			if r.Chance(45) { // a second update of a registered runtime right away
+				var regd []int
+				for id := range shRts {
+					regd = append(regd, id)
+				}
+				sort.Ints(regd)
+				if len(regd) > 0 {
+					c.Ops = append(c.Ops, regRt(pick(r, regd)))
+				}
+			}
 		case x < 28:
 			c.Ops = append(c.Ops, Op{K: "suspendrt", Rt: r.Range(1, nRts)})
 		case x < 31:
@@ -1588,6 +2007,7 @@ func genTx(r *prng.R) Case {
 			id := pick(r, nodeIDs)
 			var d NodeD
 			moved := ""
+			takes := ""
 			if cur := sh.nodes[id]; cur != nil {
 				d = mutateKeys(r, sh, *cur, false)
 				// re-registration of the same node id under a DIFFERENT entity
@@ -1629,6 +2049,25 @@ func genTx(r *prng.R) Case {
 					c.Ops = append(c.Ops, regEnt(ent))
 				}
 				ks := freshKeys(r, sh, 4, nil)
+				// sometimes take a key of another node that is still registered: often one
+				// that is expired but still held during the debonding interval (must be refused)
+				var held, heldExpired []int
+				for _, oid := range nodeIDs {
+					if nd := sh.nodes[oid]; nd != nil && oid != id {
+						if nd.Exp < sh.epoch {
+							heldExpired = append(heldExpired, keysOf(nd)...)
+						} else {
+							held = append(held, keysOf(nd)...)
+						}
+					}
+				}
+				if len(heldExpired) > 0 && r.Chance(35) {
+					ks[r.Intn(4)] = pick(r, heldExpired)
+					takes = "key_of_expired_held_node"
+				} else if len(held) > 0 && r.Chance(6) {
+					ks[r.Intn(4)] = pick(r, held)
+					takes = "key_of_live_node"
+				}
 				d = NodeD{ID: id, Ent: ent, Cons: ks[0], P2P: ks[1], VRF: ks[2], TLS: ks[3]}
 				profile(&d)
 			}
@@ -1685,12 +2124,30 @@ func genTx(r *prng.R) Case {
 				variant += "+tx_by_random"
 			}
 			o.Moved = moved
+			if takes != "" {
+				o.Moved = takes
+				variant += "+" + takes
+			}
 			c.Ops = append(c.Ops, o)
 			// optimistic shadow: assume a fully signed, well-formed registration is accepted
 			if cur := sh.nodes[id]; cur != nil && (cur.Ent != d.Ent || cur.Cons != d.Cons) {
 				variant += "+illegal_update"
 			}
-			if variant == "full" && contains(entLists[d.Ent], d.ID) && d.Exp > sh.epoch && d.Exp <= sh.epoch+maxExp {
+			plausible := roles(&d) != 0
+			seenRt := map[int]bool{}
+			for _, rt := range d.Rts {
+				x := shRts[rt]
+				if x == nil || seenRt[rt] || (x.Kind == 1 && roles(&d)&3 == 0) || (x.Kind == 2 && roles(&d)&4 == 0) {
+					plausible = false
+				} else if x.HasWL && !contains(x.WL, d.Ent) {
+					plausible = false
+				}
+				seenRt[rt] = true
+			}
+			if len(d.Rts) == 0 && roles(&d)&39 != 0 {
+				plausible = false
+			}
+			if variant == "full" && plausible && contains(entLists[d.Ent], d.ID) && d.Exp > sh.epoch && d.Exp <= sh.epoch+maxExp {
 				nd := d
 				sh.nodes[id] = &nd
 				for _, k := range keysOf(&nd) {
@@ -1782,6 +2239,10 @@ func fixedCases() []Case {
 		d := &NodeD{ID: 4, Ent: 1, Cons: 8, P2P: 9, VRF: 10, TLS: 11, Exp: exp, Roles: 1, Rts: rts}
 		return Op{K: "regnode", Txs: 4, Node: d, Signers: []int{4, 9, 8, 11, 10}, SigOK: true}
 	}
+	cnodeOf := func(id, k int, rts []int, exp uint64) Op {
+		d := &NodeD{ID: id, Ent: 1, Cons: k, P2P: k + 1, VRF: k + 2, TLS: k + 3, Exp: exp, Roles: 1, Rts: rts}
+		return Op{K: "regnode", Txs: id, Node: d, Signers: []int{id, k + 1, k, k + 3, k + 2}, SigOK: true}
+	}
 	return []Case{
 		// freezing: the freeze end survives a renewal and a re-registration after expiry; only the
 		// node's entity may unfreeze, and only once the freeze end has passed; removal deletes the status
@@ -1794,6 +2255,50 @@ func fixedCases() []Case {
 		// entity -> runtime governance; afterwards only the runtime itself may update; back is forbidden
 		{Layer: "tx", Ops: []Op{ent, rtop(2, 1, 1, 1, 1), rtop(2, 1, 1, 1, 2), rtop(2, 1, 1, 1, 2), rtop(3, 1, 2, 1, 2), rtop(3, 1, 2, 1, 1),
 			rtop(7, 3, 1, 2, 2), rtop(2, 3, 1, 2, 1), rtop(2, 2, 1, 1, 3)}},
+		// a key of an expired node that is still held during debonding cannot be taken; after removal it can
+		{Layer: "tx", Ops: []Op{ent, {K: "regent", Txs: 2, Ent: 2, Nodes: []int{5}, DSigner: 2, SigOK: true}, reg(9, 10, 11, 2), {K: "epoch", Epoch: 4},
+			{K: "regnode", Txs: 5, Node: &NodeD{ID: 5, Ent: 2, Cons: 8, P2P: 17, VRF: 18, TLS: 19, Exp: 6}, Signers: []int{5, 17, 8, 19, 18}, SigOK: true},
+			{K: "regnode", Txs: 5, Node: &NodeD{ID: 5, Ent: 2, Cons: 16, P2P: 17, VRF: 10, TLS: 19, Exp: 6}, Signers: []int{5, 17, 16, 19, 10}, SigOK: true},
+			{K: "epoch", Epoch: 5},
+			{K: "regnode", Txs: 5, Node: &NodeD{ID: 5, Ent: 2, Cons: 8, P2P: 17, VRF: 18, TLS: 19, Exp: 7}, Signers: []int{5, 17, 8, 19, 18}, SigOK: true}}},
+		// per-role limit of the entity whitelist: one compute node of entity 1 in runtime 1; an expired node
+		// frees its slot; the limit is not re-checked when the runtime later lowers it
+		{Layer: "tx", Ops: []Op{{K: "regent", Txs: 1, Ent: 1, Nodes: []int{4, 7}, DSigner: 1, SigOK: true},
+			{K: "regrt", Caller: 2, Runtime: &RtD{ID: 1, Ent: 1, Kind: 1, Gov: 1, HasWL: true, WL: []int{1}, WLMax: [][][2]int{{{1, 1}}}}},
+			cnodeOf(4, 8, []int{1}, 2), cnodeOf(7, 12, []int{1}, 4), {K: "epoch", Epoch: 3}, cnodeOf(7, 12, []int{1}, 6), cnodeOf(4, 8, []int{1}, 6),
+			{K: "regrt", Caller: 2, Runtime: &RtD{ID: 1, Ent: 1, Kind: 1, Gov: 1, HasWL: true, WL: []int{1}, WLMax: [][][2]int{{{1, 2}}}}},
+			cnodeOf(4, 8, []int{1}, 7),
+			{K: "regrt", Caller: 2, Runtime: &RtD{ID: 1, Ent: 1, Kind: 1, Gov: 1, HasWL: true, WL: []int{1}, WLMax: [][][2]int{{{1, 1}}}}},
+			cnodeOf(7, 12, []int{1}, 8), {K: "epoch", Epoch: 7}, cnodeOf(7, 12, []int{1}, 9)}},
+		// per-role policy: entity 1 may have one compute node, entity 2 is not listed, observers are not limited
+		{Layer: "tx", Ops: []Op{{K: "regent", Txs: 1, Ent: 1, Nodes: []int{4, 7}, DSigner: 1, SigOK: true}, {K: "regent", Txs: 2, Ent: 2, Nodes: []int{5}, DSigner: 2, SigOK: true},
+			{K: "regrt", Caller: 2, Runtime: &RtD{ID: 2, Ent: 1, Kind: 1, Gov: 1, PR: []PRole{{Role: 1, Ents: [][2]int{{1, 1}, {3, 0}}}}}},
+			cnodeOf(4, 8, []int{2}, 3), cnodeOf(7, 12, []int{2}, 3),
+			{K: "regnode", Txs: 5, Node: &NodeD{ID: 5, Ent: 2, Cons: 16, P2P: 17, VRF: 18, TLS: 19, Exp: 3, Roles: 1, Rts: []int{2}}, Signers: []int{5, 17, 16, 19, 18}, SigOK: true},
+			{K: "regnode", Txs: 5, Node: &NodeD{ID: 5, Ent: 2, Cons: 16, P2P: 17, VRF: 18, TLS: 19, Exp: 3, Roles: 2, Rts: []int{2}}, Signers: []int{5, 17, 16, 19, 18}, SigOK: true}}},
+		// deployments: scheduling, altering a future deployment, and everything that is refused
+		{Layer: "tx", Ops: []Op{ent,
+			{K: "regrt", Caller: 2, Runtime: &RtD{ID: 1, Ent: 1, Kind: 1, Gov: 1, Deps: [][3]int{{0, 0, 0}}}},
+			{K: "regrt", Caller: 2, Runtime: &RtD{ID: 1, Ent: 1, Kind: 1, Gov: 1, Deps: [][3]int{{0, 2, 0}}}},
+			{K: "epoch", Epoch: 3},
+			{K: "regrt", Caller: 2, Runtime: &RtD{ID: 1, Ent: 1, Kind: 1, Gov: 1, Deps: [][3]int{{0, 2, 0}, {1, 5, 0}}}},
+			{K: "regrt", Caller: 2, Runtime: &RtD{ID: 1, Ent: 1, Kind: 1, Gov: 1, Deps: [][3]int{{0, 1, 0}, {1, 5, 0}}}},
+			{K: "regrt", Caller: 2, Runtime: &RtD{ID: 1, Ent: 1, Kind: 1, Gov: 1, Deps: [][3]int{{1, 5, 0}}}},
+			{K: "regrt", Caller: 2, Runtime: &RtD{ID: 1, Ent: 1, Kind: 1, Gov: 1, Deps: [][3]int{{0, 2, 0}, {1, 3, 0}}}},
+			{K: "regrt", Caller: 2, Runtime: &RtD{ID: 1, Ent: 1, Kind: 1, Gov: 1, Deps: [][3]int{{0, 2, 0}, {1, 6, 0}}}},
+			{K: "regrt", Caller: 2, Runtime: &RtD{ID: 1, Ent: 1, Kind: 1, Gov: 1, Deps: [][3]int{{0, 2, 0}, {1, 6, 0}, {2, 7, 0}}}},
+			{K: "regrt", Caller: 2, Runtime: &RtD{ID: 1, Ent: 1, Kind: 1, Gov: 1, Gen: 1, Deps: [][3]int{{0, 2, 0}, {1, 6, 0}}}},
+			{K: "epoch", Epoch: 7},
+			{K: "regrt", Caller: 2, Runtime: &RtD{ID: 1, Ent: 1, Kind: 1, Gov: 1, Deps: [][3]int{{1, 6, 0}}}},
+			{K: "regrt", Caller: 2, Runtime: &RtD{ID: 1, Ent: 1, Kind: 1, Gov: 1, Deps: [][3]int{{1, 6, 0}, {0, 8, 0}}}},
+			{K: "regrt", Caller: 2, Runtime: &RtD{ID: 1, Ent: 1, Kind: 1, Gov: 1, TEE: 1, Deps: [][3]int{{1, 6, 0}}}},
+			{K: "regrt", Caller: 2, Runtime: &RtD{ID: 1, Ent: 1, Kind: 1, Gov: 1, Deps: [][3]int{{1, 6, 0}, {2, 8, 0}, {3, 9, 0}}}},
+			{K: "regrt", Caller: 2, Runtime: &RtD{ID: 1, Ent: 1, Kind: 1, Gov: 1, Deps: [][3]int{{1, 6, 0}, {2, 8, 5}}}},
+			{K: "regrt", Caller: 2, Runtime: &RtD{ID: 1, Ent: 1, Kind: 1, Gov: 1, Deps: [][3]int{{1, 6, 0}, {2, 8, 0}}}},
+			{K: "epoch", Epoch: 9},
+			// the active deployment (version 2) cannot be dropped in favour of the older one
+			{K: "regrt", Caller: 2, Runtime: &RtD{ID: 1, Ent: 1, Kind: 1, Gov: 1, Deps: [][3]int{{1, 6, 0}}}},
+			{K: "regrt", Caller: 2, Runtime: &RtD{ID: 1, Ent: 1, Kind: 1, Gov: 1, Deps: [][3]int{{2, 8, 0}}}}}},
 		// key manager references: must name a registered key manager runtime; once set, neither removed nor changed
 		{Layer: "tx", Ops: []Op{ent, {K: "regrt", Caller: 2, Runtime: &RtD{ID: 1, Ent: 1, Kind: 1, Gov: 1, KM: 3}}, rtop(2, 3, 1, 2, 1),
 			{K: "regrt", Caller: 2, Runtime: &RtD{ID: 1, Ent: 1, Kind: 1, Gov: 1, KM: 3}}, rtop(2, 1, 1, 1, 1),
@@ -1855,7 +2360,7 @@ func main() {
 	viper.Set(cmdFlags.CfgDebugDontBlameOasis, true) // the registry parameters carry debug flags (test runtimes, immediate deployment)
 	initPool()
 	hdr := "From Verif Require Import Lib.Base Registry.Model Gen.RegistryConsts.\n"
-	wb := coqout.NewWriter(*out, hdr, "run_case_b setnode_removals_first", "list_eqb obs_eqb", 26)
+	wb := coqout.NewWriter(*out, hdr, "run_case_b setnode_removals_first", "list_eqb obs_eqb", 16)
 	sum := coqout.NewSummary("seeded histories over a pool of 24 keys (1-3 entities, 4-7 node ids, sub-keys mostly 8-24): layer tx = RegisterEntity/DeregisterEntity/RegisterNode/RegisterRuntime transactions through ExecuteTx (runtimes 1-3, entity or runtime governance, callers right/wrong incl. runtime messages through ExecuteMessage, owner and governance changes, entity whitelists, suspension by the environment and resumption by node registration; node descriptors with roles validator/compute/observer/key manager and runtime lists) (transaction signer right/wrong, descriptor signatures full/one missing/one extra/one wrong/invalid) and epoch transitions through BeginBlock; layer state = SetNode/RemoveNode/SetEntity/SetRuntimeOwner called directly; node updates renew, rotate, swap, 3-cycle or take over P2P/VRF/TLS (state layer: also consensus) keys; non-trivial = the history contains an accepted node update that changed at least one sub-key; distinct = distinct operation lists")
 	var cases []Case
 	if *replay != "" {
